@@ -13,8 +13,8 @@ PPTXF = "sharepoint2text/parsing/extractors/ms_modern/pptx_extractor.py"
 ODTF = "sharepoint2text/parsing/extractors/open_office/odt_extractor.py"
 ODSF = "sharepoint2text/parsing/extractors/open_office/ods_extractor.py"
 MUTANTS = [
-    M("docx-rows-direct-children", DOCX, "            for tr in _iter_wrapped(tbl, (W_TR,)):\n                row_data: list[str] = []", "            for tr in tbl.findall(W_TR):\n                row_data: list[str] = []", "C13-WALK", "lost"),
-    M("docx-rows-all-descendants", DOCX, "            for tr in _iter_wrapped(tbl, (W_TR,)):\n                row_data: list[str] = []", "            for tr in tbl.iter(W_TR):\n                row_data: list[str] = []", "C13-WALK", "duplicated"),
+    M("docx-rows-direct-children", DOCX, "            for tr in _iter_wrapped(tbl, (W_TR,)):\n", "            for tr in tbl.findall(W_TR):\n", "C13-WALK", "lost"),
+    M("docx-rows-all-descendants", DOCX, "            for tr in _iter_wrapped(tbl, (W_TR,)):\n", "            for tr in tbl.iter(W_TR):\n", "C13-WALK", "duplicated"),
     M("docx-cells-all-descendants", DOCX, "                for tc in _iter_wrapped(tr, (W_TC,)):\n                    cell_paragraphs", "                for tc in tr.iter(W_TC):\n                    cell_paragraphs", "C13-WALK", "duplicated"),
     M("docx-cell-paragraphs-direct-children", DOCX, "                        for p in _iter_wrapped(tc, (W_P, W_TBL))\n                        if p.tag == W_P\n", "                        for p in tc.findall(W_P)\n", "C13-WALK", "lost"),
     M("docx-cell-paragraphs-all-descendants", DOCX, "                        for p in _iter_wrapped(tc, (W_P, W_TBL))\n                        if p.tag == W_P\n", "                        for p in tc.iter(W_P)\n", "C13-WALK"),
@@ -40,9 +40,14 @@ MUTANTS = [
     M("xlsx-table-from-record-dicts", D, "    def get_table(self) -> list[list[typing.Any]]:\n        return self.data\n\n    def get_dim(self) -> TableDim:\n        rows = len(self.data)\n        columns = max((len(row) for row in self.data), default=0)\n        return TableDim(rows=rows, columns=columns)\n\n\n@dataclass\nclass XlsxContent", "    records: Dict[str, typing.Any] = field(default_factory=dict)\n\n    def get_table(self) -> list[list[typing.Any]]:\n        return [list(self.records.keys())] + [list(self.records.values())]\n\n    def get_dim(self) -> TableDim:\n        rows = len(self.data)\n        columns = max((len(row) for row in self.data), default=0)\n        return TableDim(rows=rows, columns=columns)\n\n\n@dataclass\nclass XlsxContent", "C13-KEY"),
     M("ods-rows-direct-children-only", ODSF, "    for row in _iter_sheet_rows(table):", "    for row in table.findall(\"table:table-row\", NS):", "C13-ODS"),
     M("ods-covered-cells-skipped", ODSF, "            if cell.tag not in (_TABLE_CELL_TAG, _TABLE_COVERED_CELL_TAG):\n                continue", "            if cell.tag != _TABLE_CELL_TAG:\n                continue", "C13-ODS"),
+    M("docx-gridspan-not-padded", "sharepoint2text/parsing/extractors/ms_modern/docx_extractor.py", "                    span = _grid_count(tc.find(W_TCPR), W_GRIDSPAN)\n                    row_data.extend([\"\"] * max(0, span - 1))\n", "", "C13-GRID"),
+    M("docx-gridbefore-ignored", "sharepoint2text/parsing/extractors/ms_modern/docx_extractor.py", "                row_data: list[str] = [\"\"] * _grid_count(tr.find(W_TRPR), W_GRIDBEFORE)\n", "                row_data: list[str] = []\n", "C13-GRID"),
+    M("xlsx-rows-clipped-to-dimension", "sharepoint2text/parsing/extractors/ms_modern/xlsx_extractor.py", "    if hasattr(ws, \"reset_dimensions\"):\n        ws.reset_dimensions()\n", "", "C13-GRID"),
+    M("xlsx-reset-after-read", "sharepoint2text/parsing/extractors/ms_modern/xlsx_extractor.py", "    if hasattr(ws, \"reset_dimensions\"):\n        ws.reset_dimensions()\n    rows = list(ws.iter_rows(values_only=True))\n", "    rows = list(ws.iter_rows(values_only=True))\n    if hasattr(ws, \"reset_dimensions\"):\n        ws.reset_dimensions()\n", "C13-GRID"),
 ]
 
 TWINS = [
+    T("xlsx-reset-unconditional", "sharepoint2text/parsing/extractors/ms_modern/xlsx_extractor.py", "    if hasattr(ws, \"reset_dimensions\"):\n        ws.reset_dimensions()\n", "    ws.reset_dimensions()\n"),
     T("xlsx-emptiness-spelled-out", XLSX, "    return val is not None and (not isinstance(val, str) or val.strip() != \"\")", "    if val is None:\n        return False\n    if isinstance(val, str):\n        return val.strip() != \"\"\n    return True"),
     T("docx-cell-comprehension-as-loop", DOCX, "                    cell_paragraphs = [\n                        _extract_paragraph_content(p, include_formulas=False)\n                        for p in _iter_wrapped(tc, (W_P, W_TBL))\n                        if p.tag == W_P\n                    ]", "                    cell_paragraphs = []\n                    for p in _iter_wrapped(tc, (W_P, W_TBL)):\n                        if p.tag == W_P:\n                            cell_paragraphs.append(_extract_paragraph_content(p, include_formulas=False))"),
     T("odt-row-iterator-not-equal-form", ODT, "        if child.tag == _TABLE_ROW_TAG:\n            yield child\n        else:\n            yield from _iter_table_rows(child)", "        if child.tag != _TABLE_ROW_TAG:\n            yield from _iter_table_rows(child)\n        else:\n            yield child"),
